@@ -175,10 +175,22 @@ impl Family for C04Family {
             s.up = cell.up;
             s.uv = cell.uv;
             s.pin_auth = cell.pin_auth;
+            // (a PRF request riding on the assertion must not change who signs)
+            if r.chance(1, 6) {
+                s.prf = Some(CtapPrf { eval: Some((r.bytes(32), None)), by_cred: None });
+            }
             OpKind::GetAssertion(s)
         };
         let mut op = plain_op(kind);
-        op.user = vec![cell.outcome];
+        // the three error cells stand for "the validation step failed": which status it fails with, and whether a
+        // later prompt of the same ceremony would be answered, is a nuisance parameter
+        op.user = match cell.outcome {
+            UserOutcome::Err(_) if r.bool() => {
+                let code = *r.pick(&[0x3Cu8, 0x3A, 0x36, 0x31, 0x23, 0x30, 0x7F, 0x01, 0x2E]);
+                vec![UserOutcome::Err(code), UserOutcome::Check { presence: true, verification: r.bool() }]
+            }
+            o => vec![o],
+        };
         op.yields = gen_yields(&mut r, 10, 2);
         // one run in six: the authenticator was first used (getInfo) while the user-validation method
         // reported another verification capability; the cell's capability is what it reports from then on
